@@ -479,7 +479,10 @@ func runC16probe(o *Out, rng *RNG, tier string, replay string) {
 			sucRan = true
 		}
 	}
-	if ob.RunErr == "hang" || ob.RunErr == "panic" || !ob.SurFailed || finRan || sucRan {
+	// Whether the success handler still runs after its sibling's submission was rejected is left open
+	// (try.go stops submitting; running it would serve "success iff the body succeeded" just as well).
+	_ = sucRan
+	if ob.RunErr == "hang" || ob.RunErr == "panic" || !ob.SurFailed || finRan {
 		o.Fail("rejected_handler", fmt.Sprintf("rejected finally submission: run=%s surrounding failed=%v finally ran=%v success ran=%v", ob.RunErr, ob.SurFailed, finRan, sucRan), "rejected-handler", ob)
 	}
 	// scenario B: a failing handler's error is forwarded to the surrounding scope while its Close waits
